@@ -526,7 +526,35 @@ pub fn world_b_handshake(property: &str, scenario: &str, seed: u64, run: u64, th
             plan.push(t, r.u32() | 1, if r.chance(0.7) { Op::DisconnectNow { ep: c, to: None } } else { Op::Disconnect { ep: c, to: None } });
         }
     }
-    plan.adversary = if clean { String::new() } else { "handshake_forger".into() };
+    if !clean {
+        // stray frames of the other types bearing a client's own address while its handshake is
+        // pending at the server (a late duplicate from an earlier connection of that address, or
+        // a forgery): a disconnect request or acknowledgement, an empty sync, acknowledgement or
+        // data frame. None of them carries the nonce, so none may touch the pending handshake.
+        // Delivered no later than two link latencies after the client was created: its own ACK
+        // cannot have arrived by then (generator of its own)
+        let mut r = Rng::keyed(&[seed, run, 0x57a_d15c]);
+        for &c in topo.clients.iter() {
+            if !r.chance(0.3) {
+                continue;
+            }
+            let Some(t_create) = plan.timeline.iter().find(|t| matches!(t.op, Op::Create { ep } if ep == c)).map(|t| t.t_us) else { continue };
+            for _ in 0..r.range(1, 3) {
+                let t = t_create + latency + r.below(latency + 1);
+                let bytes = match r.below(6) {
+                    0 | 1 | 2 => enc_disc(),
+                    3 => enc_disc_ack(),
+                    4 => enc_sync(None, None),
+                    _ => enc_ack(r.u32(), r.u32() & 0xFFFFF, &[]),
+                };
+                plan.push(t, 0x8000_0002, Op::Inject { to: 0, from: c, bytes, twin: false });
+            }
+        }
+    }
+    // on the clean link every other run has the forger's one passive trick: a stray nonce-less
+    // frame bearing the client's address the moment the server has answered its SYN; the
+    // handshake has to complete all the same (clause handshake_incomplete)
+    plan.adversary = if clean { if run % 2 == 1 { "stray_at_synack".into() } else { String::new() } } else { "handshake_forger".into() };
     plan.params.insert("short_ch".into(), 63.0);
     plan.end_us = horizon;
     plan.sort();
@@ -548,7 +576,10 @@ pub struct HandshakeForger {
 impl HandshakeForger {
     pub fn new(plan: &Plan) -> Self {
         let mut rng = Rng::keyed(&[plan.fate_seed.unwrap_or(0), 0x68736667]);
-        let rate = *rng.pick(&[0.02, 0.1, 0.3]);
+        let mut rate = *rng.pick(&[0.02, 0.1, 0.3]);
+        if plan.adversary == "stray_at_synack" {
+            rate = 0.0;
+        }
         Self { rng, syn: Default::default(), synack: Default::default(), recorded: Vec::new(), count: 0, max: 300, rate }
     }
 
@@ -576,6 +607,26 @@ impl crate::world::Adversary for HandshakeForger {
                 self.syn.insert(w.src, f.nonce);
             }
             Some(uflow::verif::Frame::HandshakeSynAckFrame(f)) if matches!(plan.endpoints[w.src].kind, EndpointKind::Server { .. }) => {
+                // the first SYN-ACK of a handshake is on the wire, so the server holds a pending
+                // entry for that client and the client's ACK cannot arrive for two link delays: a
+                // stray nonce-less frame bearing the client's address (a late duplicate of a
+                // disconnect request or acknowledgement from an earlier connection of that
+                // address, an empty sync or acknowledgement frame) arrives right now. It proves
+                // nothing about the address and must not touch the handshake in progress
+                // (coin of its own: the forger's other choices stay what they were)
+                if self.synack.get(&dst) != Some(&f.nonce) && matches!(plan.endpoints[dst].kind, EndpointKind::Client { .. }) && self.count < self.max {
+                    let mut coin = Rng::keyed(&[plan.fate_seed.unwrap_or(0), 0x57a1e, dst as u64, f.nonce as u64]);
+                    if coin.chance(if plan.adversary == "stray_at_synack" { 0.5 } else { 0.1 }) {
+                        self.count += 1;
+                        let bytes = match coin.below(6) {
+                            0 | 1 | 2 => enc_disc(),
+                            3 => enc_disc_ack(),
+                            4 => enc_sync(None, None),
+                            _ => enc_ack(coin.u32(), coin.u32() & 0xFFFFF, &[]),
+                        };
+                        _out.push(TimedOp { t_us: _now_us + 1, rank: DELIVER_RANK_PUB, op: Op::Inject { to: w.src, from: dst, bytes, twin: false } });
+                    }
+                }
                 self.synack.insert(dst, f.nonce);
                 // a raw socket that is answered acknowledges: whatever made the server answer
                 // its (wrong-version, incompatible) request, the handshake would now complete
@@ -1675,8 +1726,14 @@ pub fn world_b_idle(property: &str, scenario: &str, seed: u64, run: u64, thoroug
         let t_disc = r.range(1_000_000, 3_000_000);
         plan.push(t_disc, 4, Op::Disconnect { ep: c, to: None });
         let t_drop = t_disc + r.range(300_000, 2_000_000);
-        plan.push(t_drop, 4, Op::ServerDrop { ep: 0, to: c });
-        let t_back = t_drop + r.range(200_000, 5_000_000);
+        // ... or the server application leaves the closed entry alone: the address's SYNs are
+        // ignored until the 20 s linger is over (the handshake's 22 s retry budget covers that),
+        // and the second life begins with the first one's entry only just expired
+        let drop_entry = r.chance(0.5);
+        if drop_entry {
+            plan.push(t_drop, 4, Op::ServerDrop { ep: 0, to: c });
+        }
+        let t_back = t_drop + r.range(if drop_entry { 200_000 } else { 1_500_000 }, 5_000_000);
         plan.push(t_back, 1, Op::Destroy { ep: c });
         plan.push(t_back + 1000, 1, Op::Create { ep: c });
     }
